@@ -267,6 +267,11 @@ LSTerms ==
      Quant("exists", <<BVar("ap", TArray(TInt, TPair))>>, Op("equals", <<Op("array_select", <<Sym("ap", TArray(TInt, TPair)), IntC(0)>>), PP>>)),
      Quant("exists", <<BVar("pp", TPair), BVar("p", TBool)>>, Op("or", <<P, Op("equals", <<K1s, K2s>>)>>)),
      Op("equals", <<Op("array_select", <<Op("array_select", <<ANest, Xx>>), Yy>>), RealC(<<1, 2>>)>>),
+     \* a declared sort that occurs ONLY two array levels down (as element, as index of the inner index sort)
+     Op("equals", <<Op("array_select", <<Op("array_select", <<Sym("grid", TArray(TInt, TArray(TInt, TSort("Elem")))), Xx>>), Yy>>),
+                    Op("array_select", <<Op("array_select", <<Sym("grid", TArray(TInt, TArray(TInt, TSort("Elem")))), Yy>>), Xx>>)>>),
+     Op("array_select", <<Sym("deep", TArray(TArray(TInt, TArray(TSort("Idx"), TInt)), TBool)),
+                          Sym("key", TArray(TInt, TArray(TSort("Idx"), TInt)))>>),
      Op("equals", <<Op("ite", <<P, Xx, Yy>>), IntC(1)>>),
      Op("le", <<Op("ite", <<Op("lt", <<Xx, Yy>>), Xx, Yy>>), Op("ite", <<Qs, IntC(0), Xx>>)>>),
      Op("ite", <<Op("ite", <<P, Qs, Op("le", <<Xx, Yy>>)>>), Op("not", <<P>>), Op("equals", <<Bb, Cc>>)>>),
@@ -337,7 +342,20 @@ LGTerms ==
      Op("equals", <<Op("ite", <<P, Xx, Op("str_length", <<Ss>>)>>), IntC(0)>>),
      Op("equals", <<Op("bv_concat", <<Bb, Cc>>), BVC(3, 4)>>) }
 
-Corpus == CASE Layer = "L1" -> L1_(0) [] Layer = "L2" -> L2_(0) [] Layer = "LQ" -> LQ_(0)
+\* ---------------------------------------------------------------------------
+\* equality of array LITERALS: two literals over a finite index sort denote the same array iff they agree at every
+\* index - the defaults matter exactly as long as some index is unassigned.  n common entries (n = 0 .. all indices),
+\* equal / different defaults, equal / one different entry; index sorts Bool, BV1, BV2, BV3 (8 indices) and Int.
+IdxC(ity, j) == IF ity = TBool THEN BoolC(j = 1) ELSE IF ity = TInt THEN IntC(j) ELSE BVC(j, ity.w)
+ArrLit(ity, d, n, twist) ==
+    ArrV(ity, <<d>> \o FlattenSeq([j \in 1..n |-> <<IdxC(ity, j - 1), IF j = twist THEN IntC(7) ELSE IntC(j)>>]))
+ArrEqTerms ==
+    UNION {UNION {{Op("equals", <<ArrLit(ity, IntC(0), n, 0), ArrLit(ity, d2, n, tw)>>) : d2 \in {IntC(0), IntC(9)}, tw \in {0, n}}
+                  : n \in 0..(IF ity = TInt THEN 4 ELSE IF ity = TBool THEN 2 ELSE Pow2(ity.w))}
+           : ity \in {TBool, TBV(1), TBV(2), TBV(3), TInt}}
+    \cup {Op("equals", <<ArrLit(TBV(3), IntC(0), n, 0), ArrLit(TBV(3), IntC(9), n + 1, 0)>>) : n \in 5..7}
+
+Corpus == CASE Layer = "L1" -> L1_(0) [] Layer = "ARREQ" -> ArrEqTerms [] Layer = "L2" -> L2_(0) [] Layer = "LQ" -> LQ_(0)
             [] Layer = "G1" -> GroundCases(FALSE) [] Layer = "G1W" -> GroundCases(TRUE)
             [] Layer = "VALS" -> {ValPool} [] Layer = "LS" -> LSTerms [] Layer = "LG" -> LGTerms
 
